@@ -173,6 +173,9 @@ def do_layout(q):
             ent['bases'] = [[qname_of(f.type), f.bitpos // 8] for f in t.fields() if f.is_base_class]
     out['layouts'][q] = ent
 
+# typedefs fixed by the C++ standard ([re.syn]: typedef basic_regex<char> regex)
+STD_TYPEDEFS = {'regex': 'std::__cxx11::basic_regex<char, std::__cxx11::regex_traits<char> >'}
+
 def candidates(name, kinds):
     """qualified names of all types whose unqualified name is `name`"""
     try:
@@ -279,6 +282,12 @@ for ent_ in req.get('structs', []):
                 break
             except gdb.error:
                 t = None
+    if t is None and name in STD_TYPEDEFS:
+        # a typedef of the standard library that g++ names in the dump but leaves out of the DWARF
+        try:
+            t = gdb.lookup_type(STD_TYPEDEFS[name])
+        except gdb.error:
+            t = None
     if t is None:
         cs = []
         for cq in candidates(name, None):
